@@ -320,7 +320,7 @@ def _empty_result(item):
 
 
 class _Proc(object):
-    __slots__ = ("pid", "tfd", "rfd", "buf", "idx", "started", "done")
+    __slots__ = ("pid", "tfd", "rfd", "buf", "idx", "started", "done", "killed")
 
 
 def _serve(items, tr, rw):
@@ -394,7 +394,7 @@ def run_items(items, jobs=None):
         os.close(tr)
         os.close(rw)
         p = _Proc()
-        p.pid, p.tfd, p.rfd, p.buf, p.idx, p.started, p.done = pid, tw, rr, b"", None, 0.0, False
+        p.pid, p.tfd, p.rfd, p.buf, p.idx, p.started, p.done, p.killed = pid, tw, rr, b"", None, 0.0, False, False
         procs[rr] = p
         return p
 
@@ -415,7 +415,14 @@ def run_items(items, jobs=None):
             status = os.waitpid(p.pid, 0)[1]
         except ChildProcessError:
             pass
-        if failed and p.idx is not None:
+        if failed and p.idx is not None and p.killed:
+            # stopped by this scheduler for overrunning its budget: what it had explored is lost, nothing is claimed
+            res = _empty_result(items[p.idx])
+            res["truncated"] = True
+            res["inconclusive"] = ["stopped: the item overran its time budget by more than %d s" % int(grace)]
+            res["n_inconclusive"] = 1
+            results[p.idx] = res
+        elif failed and p.idx is not None:
             how = "signal %d" % (status & 0x7F) if status is not None and status & 0x7F else "exit status %r" % (None if status is None else status >> 8)
             attempts[p.idx] = attempts.get(p.idx, 0) + 1
             sys.stderr.write("worker for item %r died (%s), attempt %d\n" % (items[p.idx].get("name"), how, attempts[p.idx]))
@@ -464,6 +471,7 @@ def run_items(items, jobs=None):
             if dl is not None:
                 limit = min(limit, max(30.0, dl - p.started))
             if now - p.started > limit + grace:
+                p.killed = True
                 try:
                     os.kill(p.pid, signal.SIGKILL)
                 except ProcessLookupError:
